@@ -97,6 +97,9 @@ def scenarios(ctx):
     out.append(Std('pub-q2-clean-then-persist', profile='pub', init=(('connect', 0, True, 0, 4), ('connack', 0, 0, False)),
                    connects=[(True, 0, 4)], reconnects=[(False, 0, 4), (True, 0, 4)], pub_qos=(2,),
                    budgets=dict(pub=2, ack=2 if q else 3, tick=1, lose=2, rebuild=2, connect=2, connack=2)))
+    out.append(Std('pub-q2-reenter-connected', profile='pub', init=CONNECTED_P, connects=[(False, 0, 4)],
+                   reconnects=[(False, 0, 4)], pub_qos=(2,), reenter=('ok:connect@1>pub2',), windows=(1, 2),
+                   budgets=dict(pub=2, ack=3, tick=1, lose=1, rebuild=1, connect=1, connack=1, setwin=1)))
     out.append(Wrap('pub-q2-wrap', profile='pub', init=CONNECTED_P + (('setwin', 0, 2),), connects=[(False, 0, 4)],
                     reconnects=[(False, 0, 4)], pub_qos=(1, 2),
                     budgets=dict(pub=3, ack=2 if q else 3, setid=1, tick=1, lose=0 if q else 1, rebuild=1, connect=1, connack=1)))
